@@ -1288,6 +1288,13 @@ func init() {
 					quoteDepth = true
 				}
 			}
+			// the same decision computed into a local first (`quotedKey := (ch == '"' || ch == '\'') && depth > 0`): the
+			// depth is compared in a block that is entered from the quote test only, and the comparison is used
+			eachInstr(fn, func(in ssa.Instruction) {
+				if bo, ok := in.(*ssa.BinOp); ok && isDepthTest(bo, true) && bo.Referrers() != nil && len(*bo.Referrers()) > 0 && enteredOnlyUnder(bo.Block(), isQuoteTest) {
+					quoteDepth = true
+				}
+			})
 			c.check(firstStrict, "IsVariablePath: a path starts with a name", p.pos(fn.Pos()), "IsIdentifierChar(first, true)", "the first character is not required to start a name: `5`, `-n`, `(a)` count as variable paths, are looked up as variables and render as nothing")
 			c.check(quoteDepth, "IsVariablePath: quotes only inside brackets", p.pos(fn.Pos()), "the quote branch depends on the bracket depth", "a quote is accepted anywhere in a path: the string literal 'hello' counts as a variable path and renders as nothing in {{ }} while v-if sees a truthy string")
 			c.check(indexChecked, "IsVariablePath: bracket content is a number or a quoted key", p.pos(fn.Pos()), "the text between brackets is checked", "whatever stands between brackets counts as part of a path: `items[idx]` is looked up with the literal key idx and renders as nothing while v-if evaluates the index")
